@@ -4,5 +4,7 @@ CONSTANTS
   MaxLen = 4
   LexL = "MIT"
   LexE = "Bison-exception-2.2"
+  LexLR = "a"
+  LexDR = "d"
 INVARIANTS GrammarInv TotalInv RoundTrip Emit
 CHECK_DEADLOCK FALSE
